@@ -14,7 +14,7 @@ from .terms import NONE, Event, Result, T, const_value, glob, show, subterms
 CLEAN, DEFAULT, USER = 0, 1, 2
 
 DATA_PARAM_NAMES = {"y", "y_true", "y_pred", "sensitive_features", "control_features", "sample_weight", "labels",
-                    "scores", "sample_params", "kwargs", "sensitive_feature_vector", "other_params"}
+                    "scores", "sample_params", "kwargs", "sensitive_feature_vector", "other_params", "X"}
 
 # external callables whose result never carries the argument's labels (position-only conversions, reductions to
 # scalars, validators).  Trusted table.
@@ -205,6 +205,10 @@ class LabelDomain:
                     else:
                         parts.append(v(x))
                 return self._join(parts)
+            if n == "builtins.getattr" and len(args) >= 2 and args[1].op == "const" and const_value(args[1]) in LABEL_ATTRS | {"loc", "values"}:
+                if const_value(args[1]) == "values":
+                    return CLEAN, frozenset()
+                return self._join([v(args[0])] + ([v(args[2])] if len(args) > 2 else []))  # getattr(x, "index", d) is x.index
             if n.startswith("numpy.") or n.startswith("builtins.") or n.startswith("sklearn.") \
                     or n.startswith("scipy.") or n.startswith("math.") or n.startswith("time."):
                 return CLEAN, frozenset()
